@@ -67,13 +67,14 @@ def eof_unget_slack(norm):
     return 0
 
 
-def record(s, frag, conf=None):
-    """parse s non-strictly and strictly with brand-new objects; returns the Trace_Strict record"""
+def record(s, frag, conf=None, objs=None):
+    """parse s non-strictly and strictly - with brand-new objects, or with the two given long-lived objects
+    (non-strict, strict) that have seen the same inputs before; returns the Trace_Strict record"""
     from html5lib import html5parser, constants
     E = constants.E
 
     def go(strict):
-        p = html5parser.HTMLParser(strict=strict)
+        p = html5parser.HTMLParser(strict=strict) if objs is None else objs[1 if strict else 0]
         try:
             if frag:
                 p.parseFragment(s, container=frag)
@@ -125,6 +126,26 @@ def inputs(ctx):
 def _rec_item(item):
     s, frag, conf = item
     return record(s, frag, conf)
+
+
+FORMISH = ["<!DOCTYPE html><title>t</title><form action=\"/s\"><p><input name=a>", "<!DOCTYPE html><title>t</title><form><p>x</p></form>",
+           "<form><table><form>", "<!DOCTYPE html><form><div></form>x", "<p><form></p></form>", "<table><form><tr><td>x</form>",
+           "<!DOCTYPE html><title>t</title><pre>\nx</pre>", "<!DOCTYPE html><table><caption>a</caption><tr><td>b</table>",
+           "<!DOCTYPE html><title>t</title><select><option>a<option>b</select>", "<frameset><frame></frameset>",
+           "<!DOCTYPE html><title>t</title><p><b><i>x</i></b>", "<b><p></b>x", "<a><table><a>", "<svg><p>", "<h1><h2>x", "</p>"]
+
+
+def _rec_sequence(seq):
+    """the same input sequence on ONE long-lived non-strict object and ONE long-lived strict object"""
+    from html5lib import html5parser
+    objs = [html5parser.HTMLParser(strict=False), html5parser.HTMLParser(strict=True)]
+    out = []
+    for s, frag, conf in seq:
+        # C12's listed leak (table text pending at an abort) is not this property's business: start from clean objects then
+        if any(lc.persistent(o)["pend"] for o in objs):
+            objs = [html5parser.HTMLParser(strict=False), html5parser.HTMLParser(strict=True)]
+        out.append(record(s, frag, conf, objs))
+    return out
 
 
 def run(ctx):
@@ -217,6 +238,36 @@ def run(ctx):
             ncrash += 1
         else:
             ctx.violation("input rejected by Trace_Strict: %s" % v["v"], case)
+    # 3. the same clauses on long-lived objects: a non-strict and a strict parser object fed the same input sequence
+    seqs = []
+    for _ in range(150 if ctx.quick else 2500):
+        seq = []
+        for _k in range(ctx.rng.randint(3, 8)):
+            r = ctx.rng.random()
+            if r < 0.4:
+                doc, a, c = conform.conforming(ctx.rng)
+                seq.append((doc, None, (a, c)))
+            elif r < 0.7:
+                seq.append((ctx.rng.choice(FORMISH), ctx.rng.choice([None, None, "div", "table"]), None))
+            else:
+                seq.append((ctx.rng.choice(ins), None, None))
+        seqs.append(seq)
+    recs2 = core.parallel(_rec_sequence, seqs, chunk=50)
+    flat_items = [it for seq in seqs for it in seq]
+    flat_recs = [r for rr in recs2 for r in rr]
+    idx2 = {id(t): i for i, t in enumerate(flat_recs)}
+    for tr, v in core.validate_traces(ctx, "Trace_Strict", flat_recs, "trace-reused", consts=consts):
+        s, frag, conf = flat_items[idx2[id(tr)]]
+        case = {"kind": "input-on-reused-objects", "input": s, "container": frag, "conforming": conf is not None, "record": tr, "verdict": v}
+        if v["v"] == "finding":
+            for nm in v["f"]:
+                if not ctx.known_finding(nm, DEFECTS.get(nm, nm), {"input": s, "container": frag}):
+                    ctx.violation("property failure explained only by the unlisted deviation %s" % nm, case)
+        elif v["v"] == "crash":
+            ncrash += 1
+        else:
+            ctx.violation("input on long-lived strict / non-strict parser objects rejected by Trace_Strict: %s" % v["v"], case)
+    ctx.notes["inputs_on_long_lived_objects"] = len(flat_recs)
     if ncrash > 0.02 * len(items) + 5:
         ctx.violation("%d of %d inputs make the NON-strict parse raise: the strict clauses are not decidable on them" % (ncrash, len(items)),
                       {"kind": "crashes", "classes": crashes})
